@@ -265,6 +265,11 @@ class DocGen:
         body = self.set_text(0, rec=rec)
         if paren:
             body = "(" + body + ")"
+        if call and not paren_call and rng.random() < 0.25:
+            # curried call: an earlier argument is a literal set too, the last one reaches the edited set through a
+            # lambda or a nested call (`f { z = 0; } (x: { … })`): the edit belongs to the *last* argument's set
+            call = call + rng.choice(["{ z = 0; } ", "{ } ", '{ z = 0; } "n" '])
+            body = "(" + rng.choice(["x: ", "g ", "self: super: "]) + body + ")"
         if outer_head is not None:
             inner = "".join(head) + body
             inner = "\n".join(("  " + line if line else line) for line in inner.split("\n"))
